@@ -304,6 +304,8 @@ type docgen struct {
 	injected  int
 	strPool   []string
 	depth     int
+	specialKeys bool                     // use keys that look exactly like other YAML types (C09/C08)
+	penvNames []string                   // names of the pipeline env, for step envs to shadow
 	mergeKeys bool                       // allow "<<" as an ordinary key (C08/C09)
 	decorate  func(marker string) string // optional: text appended to every marker (C04: env references)
 	placed    []string                   // decorated markers as placed
@@ -331,6 +333,15 @@ func (g *docgen) mark() string {
 }
 
 func (g *docgen) str() *dv { return dStr(sx.Pick(g.rng, g.strPool)) }
+
+// value for key / id / identifier / label / name: mostly a unique marked string, so that a dropped
+// or duplicated alias is visible in the output
+func (g *docgen) nameValue() *dv {
+	if g.rng.Chance(70) {
+		return dStr("nv" + g.mark())
+	}
+	return g.scalar()
+}
 
 // scalar that a string-typed field accepts (string, int, bool, finite float)
 func (g *docgen) scalar() *dv {
@@ -383,9 +394,14 @@ func (g *docgen) anyValue(depth int) *dv {
 	}
 }
 
+var specialKeys = []string{"0x1F", "1e3", "True", "+7", "0o17", "~", "yes", "No", "null", "1", "007", "1.0", "-0", ".5", "2002-08-15", "0b11", "1_000", "y", "OFF"}
+
 func (g *docgen) extraKey() string {
 	if g.mergeKeys && g.rng.Chance(6) {
 		return "<<"
+	}
+	if g.specialKeys && g.rng.Chance(10) {
+		return sx.Pick(g.rng, specialKeys) // exactly a string that plain YAML would read as another type
 	}
 	if g.rng.Chance(12) {
 		return sx.Pick(g.rng, []string{"yes", "1", "true", "null", "0x1", "~", "k with space", "depends_on", "agents", "if", "soft_fail", "é", "2002-08-15", "1.5"}) + g.mark()
@@ -428,11 +444,14 @@ func (g *docgen) pluginSource() string {
 }
 
 func (g *docgen) pluginConfig() *dv {
-	switch g.rng.Intn(5) {
+	switch g.rng.Intn(7) {
 	case 0:
 		return dNull()
 	case 1:
 		return dMap()
+	case 5:
+		// a scalar config (zero values included: false, 0, "" are configs of their own, not "no config")
+		return sx.Pick(g.rng, []*dv{dBool(false), dBool(true), dInt(0), dInt(7), dStr(""), dStr("cfg " + g.mark()), dFloat(0), dList()})
 	default:
 		m := dMap()
 		for k := 1 + g.rng.Intn(3); k > 0; k-- {
@@ -470,6 +489,12 @@ func (g *docgen) plugins() *dv {
 
 func (g *docgen) envMap() *dv {
 	m := dMap()
+	// shadow pipeline variables (when the caller announced them), also with an empty value
+	for _, n := range g.penvNames {
+		if g.rng.Chance(35) {
+			m.set(n, sx.Pick(g.rng, []*dv{dStr(""), dStr("step value"), g.scalar()}))
+		}
+	}
 	for k := g.rng.Intn(5); k > 0; k-- {
 		m.set(sx.Pick(g.rng, []string{"FOO", "BAR", "PATH", "A_B", "lower", "N1", "Ünï", "X Y"})+fmt.Sprint(k), g.scalar())
 	}
@@ -484,11 +509,15 @@ func (g *docgen) matrix() *dv {
 		}
 		return l
 	}
-	switch g.rng.Intn(6) {
+	switch g.rng.Intn(8) {
 	case 0:
 		return vals() // simple list
 	case 1:
 		return dNull()
+	case 6:
+		// present but empty in various spellings
+		return sx.Pick(g.rng, []*dv{dMap(), dMap(dkv{"setup", dMap()}), dMap(dkv{"adjustments", dList()}),
+			dMap(dkv{"setup", dMap()}, dkv{"adjustments", dList()}), dMap(dkv{"setup", dNull()}), dMap(dkv{"setup", dList()})})
 	}
 	m := dMap()
 	named := g.rng.Chance(60)
@@ -614,12 +643,12 @@ func (g *docgen) commandStep() *dv {
 	}
 	for _, k := range []string{"key", "id", "identifier"} {
 		if g.rng.Chance(25) {
-			add(k, g.maybeWrong(g.scalar(), 4))
+			add(k, g.maybeWrong(g.nameValue(), 4))
 		}
 	}
 	for _, k := range []string{"label", "name"} {
 		if g.rng.Chance(30) {
-			add(k, g.maybeWrong(g.scalar(), 4))
+			add(k, g.maybeWrong(g.nameValue(), 4))
 		}
 	}
 	if g.rng.Chance(40) {
@@ -689,9 +718,9 @@ func (g *docgen) step(depth int) *dv {
 		default:
 			m.set("steps", g.steps(depth-1, 3))
 		}
-		for _, k := range []string{"key", "id", "label", "name"} {
+		for _, k := range []string{"key", "id", "identifier", "label", "name"} {
 			if g.rng.Chance(20) {
-				m.set(k, g.scalar())
+				m.set(k, g.nameValue())
 			}
 		}
 		g.extras(m, 2)
@@ -745,7 +774,11 @@ func (g *docgen) document() *dv {
 	if g.rng.Chance(50) {
 		e := dMap()
 		for k := g.rng.Intn(6); k > 0; k-- {
-			e.set(sx.Pick(g.rng, []string{"FOO", "BAR", "BAZ", "yes", "1", "é", "key with space"})+fmt.Sprint(k), g.scalar())
+			name := sx.Pick(g.rng, []string{"FOO", "BAR", "BAZ", "yes", "1", "é", "key with space"}) + fmt.Sprint(k)
+			if g.specialKeys && g.rng.Chance(15) {
+				name = sx.Pick(g.rng, specialKeys)
+			}
+			e.set(name, g.scalar())
 		}
 		m.set("env", g.maybeWrong(e, 4))
 	}
